@@ -6,15 +6,23 @@ document for paths absent from the head".
 import ZoektModel.C13.Model
 namespace ZoektModel.C13
 
-/-- `view` is what the branch-restricted search returned, as (path, content) pairs; `t` is the head tree -/
-def checkView (t : Tree) (view : List (Path × Blob)) : Bool :=
-  t.all (fun e => !e.2.isFile || view.count (e.1, e.2.blob) == 1) &&
-  view.all (fun d => fblob t d.1 == some d.2)
+/-- `view` is what the branch-restricted search returned, as (path, content) pairs; `t` is the head tree; `ign`
+    tells which paths the head's ignore file excludes (a normal build leaves those out) -/
+def checkView (t : Tree) (ign : Path → Bool) (view : List (Path × Blob)) : Bool :=
+  t.all (fun e => !e.2.isFile || ign e.1 || view.count (e.1, e.2.blob) == 1) &&
+  view.all (fun d => fblob t d.1 == some d.2 && !ign d.1)
 
 /-- the same as a proposition about document counts: exactly one document (p, x) when the head has content `x`
     at `p`, none otherwise (absent path, or any other content) -/
 def ViewIsHead (t : Tree) (cnt : Path → Blob → Nat) : Prop :=
   ∀ p x, cnt p x = if fblob t p = some x then 1 else 0
+
+/-- the same with an ignore file: excluded paths have no document -/
+def ViewIsHeadIg (t : Tree) (ign : Path → Bool) (cnt : Path → Blob → Nat) : Prop :=
+  ∀ p x, cnt p x = if fblob t p = some x ∧ ign p = false then 1 else 0
+
+/-- a tree without an ignore file excludes nothing -/
+def Ignore.WF (I : Ignore) : Prop := ∀ t p, fget t I.path = none → I.ig t p = false
 
 /-- trees have distinct paths -/
 def TreeWF (t : Tree) : Prop := (t.map Prod.fst).Nodup
